@@ -43,6 +43,8 @@ type ProgOpts struct {
 	DoWildcards bool
 	// Mix adds columns of sort "mix", whose domain holds hash-equal constants of different kinds
 	Mix bool
+	// MoreNegation: 2-4 extra literals per rule, most of them negated atoms (several negated atoms per body)
+	MoreNegation bool
 }
 
 var sortDomain = map[string][]Val{
@@ -248,9 +250,14 @@ func randRule(r *rand.Rand, o ProgOpts, p ProgramV, head PredSig, aggPreds map[s
 	var extras []LitV
 	var post []LitV // literals that must come after a binding equality
 	nextra := r.Intn(3)
+	negWeight := 3
+	if o.MoreNegation {
+		nextra = 2 + r.Intn(3)
+		negWeight = 7
+	}
 	for i := 0; i < nextra; i++ {
 		switch x := r.Intn(10); {
-		case x < 3 && o.Negation && len(lower) > 0:
+		case x < negWeight && o.Negation && len(lower) > 0:
 			q := lower[r.Intn(len(lower))]
 			l := LitV{K: "neg", Pred: q.Name}
 			for _, s := range q.Sorts {
@@ -266,7 +273,10 @@ func randRule(r *rand.Rand, o ProgOpts, p ProgramV, head PredSig, aggPreds map[s
 			b := c.boundOrConst("num", 50)
 			extras = append(extras, LitV{K: "atom", Pred: []string{":lt", ":le", ":gt", ":ge"}[r.Intn(4)], Args: []TermV{a, b}})
 		case x < 7:
-			s := []string{"num", "name", "str", "mix"}[r.Intn(4)]
+			s := []string{"num", "name", "str", "mix", "list"}[r.Intn(5)]
+			if len(c.vars["list"]) > 0 && r.Intn(2) == 0 {
+				s = "list" // structured values compared for (in)equality: equal values from different facts are different objects
+			}
 			if len(c.vars[s]) == 0 {
 				continue
 			}
